@@ -303,8 +303,9 @@ structure DerivedShape (e : Entry) (m : Mode) (x : Var) (o : Owner) (ne : Entry)
   handle : ne.isHandle = true
   self1 : Loan.borrow e.var m ∈ ne.self
   self2 : ∀ l ∈ e.self, l ∈ ne.self
-  self3 : ∀ l ∈ ne.self, l = .borrow e.var m ∨ l ∈ e.self
-  param : ne.param = .borrow e.var m :: e.self ∨ (ne.param = e.param ∧ o.hasParam = true)
+  self3 : ∀ l ∈ ne.self, l = .borrow e.var m ∨ l ∈ e.self ∨ ∃ k, l = .frame k
+  param : ((∀ l ∈ ne.param, l ∈ ne.self) ∧ Loan.borrow e.var m ∈ ne.param ∧ ∀ l ∈ e.self, l ∈ ne.param) ∨
+          (ne.param = e.param ∧ o.hasParam = true)
   excl : ne.acc ≠ .shrRef → m = .mut
   ownScope : ne.kind = .scope → ne.acc = .own → ∀ l ∈ ne.self, l ∈ ne.param
   bumpRef : ne.kind = .bump → ne.acc ≠ .own
@@ -325,7 +326,15 @@ theorem DerivedShape.mk' {e : Entry} {m : Mode} {x : Var} {d : Nat} {o : Owner} 
     (hb : k = .bump → a ≠ .own) (hg : k = .guard → a = .own) :
     DerivedShape e m x o ⟨x, k, a, .borrow e.var m :: e.self, P, true, d⟩ :=
   ⟨rfl, rfl, by simp [Entry.isHandle, hk1, hk2], List.mem_cons_self, fun l hl => List.mem_cons_of_mem _ hl,
-   fun l hl => List.mem_cons.1 hl, hP, hex, fun h1 h2 l hl => by rw [hW h1 h2]; exact hl, hb, hg⟩
+   fun l hl => by
+     rcases List.mem_cons.1 hl with h | h
+     · exact Or.inl h
+     · exact Or.inr (Or.inl h),
+   by
+     rcases hP with hP | hP
+     · left; rw [hP]; exact ⟨fun l hl => hl, List.mem_cons_self, fun l hl => List.mem_cons_of_mem _ hl⟩
+     · exact Or.inr hP,
+   hex, fun h1 h2 l hl => by rw [hW h1 h2]; exact hl, hb, hg⟩
 
 theorem mkGuard_shape {s : Sig} (had : sigAdequate s = true) (hop : s.op = .mkGuard) {x : Var} {d : Nat} {e : Entry}
     {res : Option Entry} (h : mkResult x d e (effRecv s).mode s.ret s.lts = some res) :
@@ -466,13 +475,16 @@ theorem claim_shape {s : Sig} (had : sigAdequate s = true) (hop : s.op = .claim)
     rcases hPc with rfl | ⟨rfl, _⟩
     · exact List.mem_cons.1 hl'
     · exact Or.inr (hwf l hl')
-  have hs3 : ∀ l ∈ Loan.borrow e.var (effRecv s).mode :: (e.self ++ P), l = .borrow e.var (effRecv s).mode ∨ l ∈ e.self := by
+  have hs3 : ∀ l ∈ Loan.borrow e.var (effRecv s).mode :: (e.self ++ P),
+      l = .borrow e.var (effRecv s).mode ∨ l ∈ e.self ∨ ∃ k, l = Loan.frame k := by
     intro l hl'
     rcases List.mem_cons.1 hl' with h1 | h1
     · exact Or.inl h1
     · rcases List.mem_append.1 h1 with h2 | h2
-      · exact Or.inr h2
-      · exact hPsub l h2
+      · exact Or.inr (Or.inl h2)
+      · rcases hPsub l h2 with h3 | h3
+        · exact Or.inl h3
+        · exact Or.inr (Or.inl h3)
   have hsh : DerivedShape e (effRecv s).mode x s.ownerK
       ⟨x, .claim, .own, .borrow e.var (effRecv s).mode :: (e.self ++ P), P, true, d⟩ :=
     { var := rfl
@@ -481,7 +493,16 @@ theorem claim_shape {s : Sig} (had : sigAdequate s = true) (hop : s.op = .claim)
       self1 := List.mem_cons_self
       self2 := fun l hl => List.mem_cons_of_mem _ (List.mem_append_left _ hl)
       self3 := hs3
-      param := hPc
+      param := (by
+        rcases hPc with hP | hP
+        · left
+          rw [hP]
+          exact ⟨fun l hl => by
+                  rcases List.mem_cons.1 hl with h | h
+                  · rw [h]; exact List.mem_cons_self
+                  · exact List.mem_cons_of_mem _ (List.mem_append_left _ h),
+                 List.mem_cons_self, fun l hl => List.mem_cons_of_mem _ hl⟩
+        · exact Or.inr hP)
       excl := fun _ => effRecv_mode_claim hret
       ownScope := fun h => by cases h
       bumpRef := fun h => by cases h
@@ -497,7 +518,7 @@ theorem derived_add {Γ1 : SEnv} {σ1 : DState} (inv1 : Inv Γ1 σ1) {e : Entry}
     (heH : e.isHandle = true) {rh : Rt} (hrh : σ1.get e.var = some rh) {m : Mode} (hK : NoConflict Γ1 e.var m)
     {x : Var} {o : Owner} {ne : Entry} (sh : DerivedShape e m x o ne) (hfresh : x ∉ Γ1.used)
     (hacc : m = .mut → e.acc ≠ .shrRef)
-    (hender : (e.kind = .guard ∨ (e.kind = .bump ∧ e.acc ≠ .shrRef)) → ne.param = .borrow e.var m :: e.self)
+    (hender : (e.kind = .guard ∨ (e.kind = .bump ∧ e.acc ≠ .shrRef)) → Loan.borrow e.var m ∈ ne.param)
     (rn : Rt) (hrk : rn.kind = ne.kind) (hra : rn.arena = rh.arena) (hro : rn.own = false)
     (hep : ∀ n, rn.epoch = some n → ne.kind = .guard ∧ n < σ1.next ∧ n ∈ σ1.epochs rh.arena ∧
            (σ1.epochs rh.arena).head? ≠ some n ∧
@@ -511,36 +532,29 @@ theorem derived_add {Γ1 : SEnv} {σ1 : DState} (inv1 : Inv Γ1 σ1) {e : Entry}
   subst hvar
   have hsubP : ∀ l ∈ ne.param, l ∈ ne.self := by
     intro l hl
-    rcases sh.param with hp | ⟨hp, _⟩
-    · rw [hp] at hl
-      rcases List.mem_cons.1 hl with h | h
-      · rw [h]; exact sh.self1
-      · exact sh.self2 l h
+    rcases sh.param with ⟨hp, _, _⟩ | ⟨hp, _⟩
+    · exact hp l hl
     · rw [hp] at hl; exact sh.self2 l (hc.1 l hl)
-  apply inv1.addDerived he1 hv heH hrh m hK ne rn hfresh sh.valid sh.handle hrk hra hro sh.self1 sh.self2
-  · intro l hl
-    rcases sh.self3 l hl with h | h
-    · exact Or.inl h
-    · exact Or.inr (Or.inl h)
+  apply inv1.addDerived he1 hv heH hrh m hK ne rn hfresh sh.valid sh.handle hrk hra hro sh.self1 sh.self2 sh.self3
   · exact hsubP
   · intro l hl
-    rcases sh.param with hp | ⟨hp, _⟩
-    · rw [hp]; exact List.mem_cons_of_mem _ (hc.1 l hl)
+    rcases sh.param with ⟨_, _, hp⟩ | ⟨hp, _⟩
+    · exact hp l (hc.1 l hl)
     · rw [hp]; exact hl
-  · intro h; rw [hender h]; exact List.mem_cons_self
+  · exact hender
   · -- the allocation region of the new handle is closed
     intro p mo hp ep hep hpv l hl
-    rcases sh.param with hpar | ⟨hpar, _⟩
-    · rw [hpar] at hp ⊢
-      rcases List.mem_cons.1 hp with h | h
+    rcases sh.param with ⟨hp1, _, hp3⟩ | ⟨hpar, _⟩
+    · rcases sh.self3 _ (hp1 _ hp) with h | h | ⟨k, h⟩
       · cases h
         have := inv1.eq_of_var_eq hep he1 hpv
         subst this
-        exact List.mem_cons_of_mem _ hl
+        exact hp3 l hl
       · rcases hc.2.1 p mo h with ⟨ep0, hep0, h1, _, _, h4⟩
         have := inv1.eq_of_var_eq hep hep0 (hpv.trans h1.symm)
         subst this
-        exact List.mem_cons_of_mem _ (h4 l hl)
+        exact hp3 l (h4 l hl)
+      · cases h
     · rw [hpar] at hp ⊢
       exact hc.2.2.2 p mo hp ep hep hpv l hl
   · intro h
@@ -608,7 +622,7 @@ theorem call_derived {t : Table} (hok : sigOK t = true) {Γ Γ' Γ1 : SEnv} {σ 
     apply inv.no_val_covered he hv hr hvΓ hvv hvk hno hrv hex
     exact ⟨Or.inr (Or.inl ⟨hek, heacc, harena.symm⟩), fun hg => by rw [hek] at hg; cases hg⟩
   · intro hend
-    rcases sh.param with hp | ⟨_, hp⟩
+    rcases sh.param with ⟨_, hp, _⟩ | ⟨_, hp⟩
     · exact hp
     · rw [ender_owner_noParam hkinds hend] at hp; cases hp
 
@@ -754,7 +768,7 @@ theorem call_mkGuard {t : Table} (hok : sigOK t = true) {Γ Γ' Γ1 : SEnv} {σ 
     rcases fresh_guard_epoch inv1 hlive with ⟨f1, f2, f3, f4, f5⟩
     rw [sh.var] at hfresh ⊢
     apply derived_add inv1p he1 hv heH (rh := r) (by simpa using hr) hau.noConflict sh hfresh
-      (fun _ => hmutacc heff) (fun _ => hparam) ⟨.guard, r.arena, some σ.next, false, []⟩ (by rw [hk]) rfl rfl
+      (fun _ => hmutacc heff) (fun _ => by rw [hparam]; exact List.mem_cons_self) ⟨.guard, r.arena, some σ.next, false, []⟩ (by rw [hk]) rfl rfl
     · intro n hn
       have : n = σ.next := by simpa using hn.symm
       subst this
@@ -922,7 +936,8 @@ theorem call_guardScope {t : Table} (hok : sigOK t = true) {Γ Γ' Γ1 : SEnv} {
       have he1 : e ∈ (Γ.useMut e.var).ents := inv.receiver_survives he hv _ (fun l hl => hl)
       rw [sh.var] at hfresh ⊢
       rw [hmode] at sh hparam
-      apply derived_add inv2 he1 hv heH hr' (noConflict_useMut Γ e.var) sh hfresh (fun _ => hacc') (fun _ => hparam)
+      apply derived_add inv2 he1 hv heH hr' (noConflict_useMut Γ e.var) sh hfresh (fun _ => hacc')
+        (fun _ => by rw [hparam]; exact List.mem_cons_self)
         (Rt.hdl .scope r.arena) (by rw [hk]; rfl) harena.symm rfl
       · intro n hn; cases hn
       · intro hb; rw [hk] at hb; cases hb
